@@ -111,9 +111,9 @@ fn c01(tier: Tier) -> Vec<SeqCfg> {
         tick(2),
     ];
     let mut cfgs = vec![];
-    let d = if tier == Tier::Quick { 5 } else { 7 };
+    let d = if tier == Tier::Quick { 6 } else { 9 };
     cfgs.push(base("C01/none", "C01", a.clone(), d, tier));
-    let mut r = base("C01/random-unreached", "C01", a.clone(), if tier == Tier::Quick { 5 } else { 6 }, tier);
+    let mut r = base("C01/random-unreached", "C01", a.clone(), if tier == Tier::Quick { 5 } else { 8 }, tier);
     r.sut.policy = Policy::Random(1 << 40);
     cfgs.push(r);
     {
@@ -133,7 +133,7 @@ fn c01(tier: Tier) -> Vec<SeqCfg> {
             incr(&k250, 1, 5, 0, CasArg::Zero),
             tick(2),
         ];
-        let mut c = base("C01/keys", "C01", ak, if tier == Tier::Quick { 4 } else { 5 }, tier);
+        let mut c = base("C01/keys", "C01", ak, if tier == Tier::Quick { 5 } else { 7 }, tier);
         c.start_time = 7;
         cfgs.push(c);
     }
@@ -158,7 +158,7 @@ fn c01(tier: Tier) -> Vec<SeqCfg> {
             tick(1),
             tick(2),
         ];
-        let mut c = base("C01/keys-1MiB", "C01", a, 4, tier);
+        let mut c = base("C01/keys-1MiB", "C01", a, 5, tier);
         c.sut.item_limit = 1024 * 1024;
         c.start_time = 1000;
         cfgs.push(c);
@@ -183,6 +183,8 @@ fn c02(tier: Tier) -> Vec<SeqCfg> {
     a.push(store(StoreKind::Add, K1, b"a", 4, 0, Current));
     a.push(prepend(K1, b"-", Current));
     a.push(decr(K1, 1, 10, 0, CurrentPlus1));
+    // a decrement below zero (saturating branch) guarded by a stale CAS
+    a.push(decr(K1, 100, 10, 0, Stale1));
     a.push(delete(K1, Max));
     // expiry and re-creation
     a.push(set(K1, b"7", 5, 1));
@@ -193,7 +195,7 @@ fn c02(tier: Tier) -> Vec<SeqCfg> {
     a.push(get(K2));
     // a pending delayed flush rewrites item metadata: tokens must survive it
     a.push(flush(Some(3)));
-    let d = if tier == Tier::Quick { 6 } else { 8 };
+    let d = if tier == Tier::Quick { 7 } else { 10 };
     let mut v = vec![base("C02/cas", "C02", a, d, tier)];
     // CAS-carrying stores that also carry a TTL, on a server whose clock is far from 0
     let b = vec![
@@ -212,7 +214,7 @@ fn c02(tier: Tier) -> Vec<SeqCfg> {
         tick(1),
         tick(3),
     ];
-    let mut c = base("C02/cas-with-ttl-late-clock", "C02", b, if tier == Tier::Quick { 5 } else { 7 }, tier);
+    let mut c = base("C02/cas-with-ttl-late-clock", "C02", b, if tier == Tier::Quick { 6 } else { 12 }, tier);
     c.start_time = 100;
     v.push(c);
     v
@@ -227,6 +229,7 @@ fn c05(tier: Tier) -> Vec<SeqCfg> {
         set(K1, b"1", 1, 2),
         set(K1, b"2", 2, 3),
         set(K1, b"5", 5, DAYS30),
+        set(K1, b"", 7, 2),
         add(K1, b"6", 6, 2),
         replace(K1, b"7", 7, 2),
         get(K1),
@@ -247,16 +250,16 @@ fn c05(tier: Tier) -> Vec<SeqCfg> {
         Cmd::Tick(Tick::BeforeNextExpiry),
         tick(DAYS30 as u64),
     ];
-    let d = if tier == Tier::Quick { 5 } else { 7 };
+    let d = if tier == Tier::Quick { 6 } else { 8 };
     let mut c = base("C05/ttl", "C05", a.clone(), d, tier);
     c.start_time = 100;
     let mut v = vec![c];
     // a server that has been running for 2^32 - 2 seconds: the clock crosses 2^32 during the history
-    let mut late = base("C05/clock-crossing-2^32", "C05", a.clone(), if tier == Tier::Quick { 4 } else { 5 }, tier);
+    let mut late = base("C05/clock-crossing-2^32", "C05", a.clone(), if tier == Tier::Quick { 5 } else { 6 }, tier);
     late.start_time = (1u64 << 32) - 2;
     v.push(late);
     if tier == Tier::Thorough {
-        let mut z = base("C05/ttl-from-zero", "C05", a, 6, tier);
+        let mut z = base("C05/ttl-from-zero", "C05", a, 7, tier);
         z.start_time = 0;
         v.push(z);
     }
@@ -291,6 +294,8 @@ fn c06(tier: Tier) -> Vec<SeqCfg> {
         prepend(K1, b"", Zero),
         prepend(K1, &[0u8, 0xff], Zero),
         prepend(K1, b"head", Zero),
+        quiet(append(K1, b"qt", Zero)),
+        quiet(prepend(K1, b"qh", Zero)),
         get(K1),
         delete(K1, Zero),
         flush(None),
@@ -299,7 +304,7 @@ fn c06(tier: Tier) -> Vec<SeqCfg> {
         append(K2, b"!", Zero),
         get(K2),
     ];
-    let d = if tier == Tier::Quick { 5 } else { 7 };
+    let d = if tier == Tier::Quick { 6 } else { 8 };
     vec![base("C06/conditional", "C06", a, d, tier)]
 }
 
@@ -349,7 +354,7 @@ fn c07(tier: Tier) -> Vec<SeqCfg> {
     a.push(quiet(incr(K1, 1, 5, 0xffff_ffff, Zero)));
     a.push(quiet(decr(K1, 1, 5, 0xffff_ffff, Zero)));
     a.push(quiet(incr(K1, 1, 5, 0, Stale1)));
-    let d = if tier == Tier::Quick { 5 } else { 8 };
+    let d = if tier == Tier::Quick { 8 } else { 14 };
     vec![base("C07/counters", "C07", a, d, tier)]
 }
 
@@ -364,6 +369,7 @@ fn c08(tier: Tier) -> Vec<SeqCfg> {
     a.push(set(K1, b"w", 7, 2));
     a.push(store(StoreKind::Set, K1, b"again", 8, 0, Current));
     a.push(store(StoreKind::Replace, K2, b"again", 9, 0, Zero));
+    a.push(add(K1, b"n", 4, 0));
     a.push(delete(K1, Current));
     a.push(delete(K1, Stale1));
     a.push(delete(K2, CurrentPlus1));
@@ -373,7 +379,7 @@ fn c08(tier: Tier) -> Vec<SeqCfg> {
     a.push(flush(Some(3)));
     a.push(tick(1));
     a.push(tick(3));
-    let d = if tier == Tier::Quick { 6 } else { 8 };
+    let d = if tier == Tier::Quick { 7 } else { 9 };
     let mut c = base("C08/delete-flush", "C08", a, d, tier);
     c.start_time = 50;
     vec![c]
@@ -405,7 +411,7 @@ fn c14(tier: Tier) -> Vec<SeqCfg> {
     let mut v = vec![];
     let limits: &[u64] = if tier == Tier::Quick { &[10, 34, 60, 100] } else { &[10, 34, 60, 100, 200] };
     for l in limits {
-        let mut c = base(&format!("C14/L={}", l), "C14", a.clone(), if tier == Tier::Quick { 5 } else { 6 }, tier);
+        let mut c = base(&format!("C14/L={}", l), "C14", a.clone(), if tier == Tier::Quick { 5 } else { 7 }, tier);
         c.sut.policy = Policy::Random(*l);
         c.evict = Evict::Tight;
         v.push(c);
@@ -501,7 +507,7 @@ fn c11(tier: Tier) -> Vec<SeqCfg> {
     // quiet twins of everything that has one
     let twins: Vec<Cmd> = a.iter().filter_map(|c| c.toggled()).collect();
     a.extend(twins);
-    let d = if tier == Tier::Quick { 4 } else { 6 };
+    let d = if tier == Tier::Quick { 5 } else { 7 };
     let mut c = base("C11/all-opcodes-all-outcomes", "C11", a, d, tier);
     c.opaques = vec![0, 0xabad1dea, 0xffffffff, 0x80000001];
     vec![c]
@@ -541,7 +547,7 @@ fn c19(tier: Tier) -> Vec<SeqCfg> {
         tick(1),
         tick(2),
     ];
-    let d = if tier == Tier::Quick { 5 } else { 7 };
+    let d = if tier == Tier::Quick { 6 } else { 8 };
     vec![base("C19/loud-vs-toggled", "C19", a, d, tier)]
 }
 
@@ -566,6 +572,10 @@ pub fn foreign_cfgs(prop: &'static str) -> Vec<SeqCfg> {
             continue;
         }
         for mut c in seq_cfgs(other, Tier::Quick) {
+            // one level below the owner's own quick depth (the owner goes deeper with its own clauses)
+            if !matches!(other, "C14" | "C15") && !c.name.starts_with("C01/random") {
+                c.depth -= 1;
+            }
             c.name = format!("{}@{}", c.name, prop);
             c.prop = prop;
             v.push(c);
